@@ -34,8 +34,8 @@ ObsInit(C) ==
     late    |-> FALSE,    \* something happened to a component after Closed had been sampled
     back    |-> FALSE,    \* a state other than Closed was sampled after Closed
     ret     |-> "none",   \* "none" | "nil" | "err" : Run returned
-    ntrig   |-> 0,        \* reload triggers injected that can take effect (delivered change, SIGHUP)
-    nsig    |-> 0,        \* signals sent while the collector had its handlers installed
+    ntrig   |-> 0,        \* reload triggers injected (change notifications, SIGHUP)
+    nsig    |-> 0,        \* signals sent
     stop    |-> FALSE,    \* a sticky stop reason is outstanding (see OExt...)
     fgen    |-> 0,        \* newest generation in which a fatal error was accepted
     tmo     |-> FALSE,    \* the watchdog expired: nothing moves and Run has not returned
@@ -82,13 +82,12 @@ OExtShutdownEnd(o, id, s1, bad) ==
                 !.stop = @ \/ (Live2(p.s0) /\ Live2(s1) /\ o1.nclos = p.nc /\ ~bad),
                 !.shutbad = @ \/ bad]
 OExtCtx(o, s)         == [OSample(o, s) EXCEPT !.stop = TRUE]
-\* reg: the collector had its signal handlers installed when the signal was sent.  The collector's
-\* signal channel holds 3 signals and the Go runtime drops what does not fit, so only the first three
-\* signals of a run are certain to be seen.
-OExtSigterm(o, reg, s) == [OSample(o, s) EXCEPT !.stop = @ \/ (reg /\ o.nsig < 3),
-                                                !.nsig = IF reg THEN @ + 1 ELSE @]
-OExtSighup(o, reg, s)  == [OSample(o, s) EXCEPT !.ntrig = IF reg THEN @ + 1 ELSE @,
-                                                !.nsig = IF reg THEN @ + 1 ELSE @]
+\* reg: the sender is certain that the collector had its signal handlers installed (otherwise the
+\* signal may or may not reach it).  The collector's signal channel holds 3 signals and the Go
+\* runtime drops what does not fit, so only the first three signals of a run are certain to be seen.
+\* Every SIGHUP may cause a reload.
+OExtSigterm(o, reg, s) == [OSample(o, s) EXCEPT !.stop = @ \/ (reg /\ o.nsig < 3), !.nsig = @ + 1]
+OExtSighup(o, reg, s)  == [OSample(o, s) EXCEPT !.ntrig = @ + 1, !.nsig = @ + 1]
 \* a change notification was made (it may still be in flight)
 OExtChange(o, s)      == [OSample(o, s) EXCEPT !.ntrig = @ + 1]
 \* a notification call returned: delivered (ok) or panicked
